@@ -1813,7 +1813,9 @@ func buildConstructorCode(src, tgt *expr.AttributeExpr, sourceVar, targetVar str
 	targetRTs := &expr.Object{}
 	tatt := expr.DupAtt(tgt)
 	tobj := expr.AsObject(tatt.Type)
-	for _, nat := range *tobj {
+	// Walk a copy of the attribute list: Delete shifts tobj in place, which would
+	// make the loop skip the attribute that follows a result type attribute.
+	for _, nat := range append(expr.Object{}, *tobj...) {
 		if _, ok := nat.Attribute.Type.(*expr.ResultTypeExpr); ok {
 			targetRTs.Set(nat.Name, nat.Attribute)
 			tobj.Delete(nat.Name)
